@@ -1,9 +1,13 @@
 (* Memory safety of the 2D fast-sweeping kernels (gen/Fteik2d.v), generic in the numeric type, all shapes:
      1. sweep_ok_true               one sweep call only performs in-range accesses
      2. sweep2d_ok_true             one full sweep2d only performs in-range accesses
-     3. sgn_inv, sweep_preserves_sgn_inv, sweep2d_preserves_sgn_inv, assembly_ok_true
+     3. sgn_inv, sgn_inv_zeros, init_preserves_sgn_inv, sweep_preserves_sgn_inv, sweep2d_preserves_sgn_inv,
+        assembly_ok_true, tail_ok_true
                                     the sign bookkeeping always points to an existing neighbour, hence the
-                                    gradient assembly loop of fteik2d only performs in-range accesses
+                                    gradient assembly loop of fteik2d only performs in-range accesses;
+                                    fteik2d_ok_assembly / fteik2d_ok_tail tie the copied loop texts to the
+                                    generated fteik2d_ok by reflexivity
+   Compile proofs/SafetyTools.v first.
    `f_ok true false args = true` : index obligations on, divisor obligations off. *)
 From Coq Require Import ZArith List Bool Lia.
 From FT.lib Require Import Num Arr ArrLemmas.
@@ -11,6 +15,52 @@ From FT.gen Require Import Common Fteik2d.
 From FT.proofs Require Import SafetyTools.
 Import ListNotations.
 Open Scope Z_scope.
+
+(* ---------- the sign bookkeeping (independent of the numeric type) ---------- *)
+(* a sign s stored for index idx on an axis of n nodes: s in {-1, 0, 1}, and the neighbour idx - s exists *)
+Definition sgn_ok (s idx n : Z) : Prop :=
+  (s = -1 \/ s = 0 \/ s = 1) /\ (s = 1 -> 1 <= idx) /\ (s = -1 -> idx <= n - 2).
+Definition sgn_inv (nz nx : Z) (sg : arr Z) : Prop :=
+  wf sg /\ shape sg = [nz; nx; 2] /\
+  forall i j, 0 <= i < nz -> 0 <= j < nx ->
+    sgn_ok (get 0 sg [i; j; 0]) i nz /\ sgn_ok (get 0 sg [i; j; 1]) j nx.
+
+Lemma sgn_ok_0 idx n : sgn_ok 0 idx n.
+Proof. unfold sgn_ok. lia. Qed.
+
+(* established by the initialisation `np.zeros((nz, nx, 2))` *)
+Lemma sgn_inv_zeros nz nx : 0 <= nz -> 0 <= nx -> sgn_inv nz nx (full [nz; nx; 2] 0).
+Proof.
+  intros Hnz Hnx. split; [ apply wf_full; repeat constructor; lia | ]. split; [ reflexivity | ].
+  intros i j Hi Hj.
+  rewrite !get_full by (cbn [inb_sh]; repeat (apply andb_true_intro; split);
+                        first [ reflexivity | apply Z.leb_le; lia | apply Z.ltb_lt; lia ]).
+  split; apply sgn_ok_0.
+Qed.
+
+Ltac neq_idx := let E := fresh "E" in intro E; injection E; intros; lia.
+
+(* writing admissible signs at one node *)
+Lemma sgn_inv_set2 nz nx sg i j a b :
+  sgn_inv nz nx sg -> 0 <= i < nz -> 0 <= j < nx -> sgn_ok a i nz -> sgn_ok b j nx ->
+  sgn_inv nz nx (set (set sg [i; j; 0] a) [i; j; 1] b).
+Proof.
+  intros (W & S & Hq) Hi Hj Ha Hb.
+  assert (W1 : wf (set sg [i; j; 0] a)) by (apply wf_set; exact W).
+  assert (I0 : forall p q c, 0 <= p < nz -> 0 <= q < nx -> 0 <= c < 2 -> inb sg [p; q; c] = true)
+    by (intros; eapply inb3_true; eauto).
+  assert (I1 : forall p q c, 0 <= p < nz -> 0 <= q < nx -> 0 <= c < 2 -> inb (set sg [i; j; 0] a) [p; q; c] = true)
+    by (intros; rewrite inb_set; apply I0; assumption).
+  split; [ apply wf_set; exact W1 | ]. split; [ exact S | ].
+  intros p q Hp Hq'.
+  destruct (Z.eq_dec p i) as [-> | Np]; [ destruct (Z.eq_dec q j) as [-> | Nq] | ].
+  - split.
+    + rewrite get_set_other by (first [ apply I1; lia | neq_idx ]).
+      rewrite get_set_same by (first [ exact W | apply I0; lia ]). exact Ha.
+    + rewrite get_set_same by (first [ exact W1 | apply I1; lia ]). exact Hb.
+  - rewrite !get_set_other by (first [ apply I1; lia | apply I0; lia | neq_idx ]). apply Hq; assumption.
+  - rewrite !get_set_other by (first [ apply I1; lia | apply I0; lia | neq_idx ]). apply Hq; assumption.
+Qed.
 
 Section S2.
 Context {T : Type} `{Num T}.
@@ -127,7 +177,446 @@ Proof.
         destruct Hs as [Hs1 Hs2]; apply sweep_ok_true; auto; unfold dirp; lia end
   end.
 Qed.
+
+(* ------------------------------------------------------------------------------------------ *)
+(* 3. the sign bookkeeping always points to an existing neighbour; the gradient assembly is safe *)
+(* ------------------------------------------------------------------------------------------ *)
+Lemma sgn_ok_dirp sgnv sgnt idx n : dirp sgnv sgnt idx n -> sgn_ok sgnt idx n /\ 0 <= idx < n.
+Proof. unfold dirp, sgn_ok. lia. Qed.
+
+Theorem sweep_preserves_sgn_inv (tt : arr T) ttsgn (slow : arr T) dargs (zsi xsi zsa xsa vzero : T)
+        i j sgnvz sgnvx sgntz sgntx nz nx grad :
+  sgn_inv nz nx ttsgn -> dirp sgnvz sgntz i nz -> dirp sgnvx sgntx j nx ->
+  sgn_inv nz nx (snd (sweep tt ttsgn slow dargs zsi xsi zsa xsa vzero i j sgnvz sgnvx sgntz sgntx nz nx grad)).
+Proof.
+  intros Hinv Di Dj.
+  destruct (sgn_ok_dirp _ _ _ _ Di) as [Oz Hi]. destruct (sgn_ok_dirp _ _ _ _ Dj) as [Ox Hj].
+  destruct (sweep_snd_char tt ttsgn slow dargs zsi xsi zsa xsa vzero i j sgnvz sgnvx sgntz sgntx nz nx grad)
+    as [-> | (_ & a & b & Ha & Hb & ->)]; [ exact Hinv | ].
+  apply sgn_inv_set2; auto.
+  - destruct Ha as [-> | ->]; [ exact Oz | apply sgn_ok_0 ].
+  - destruct Hb as [-> | ->]; [ exact Ox | apply sgn_ok_0 ].
+Qed.
+
+(* established by the source initialisation of fteik2d (the part between the allocation and the sweeps):
+   every sign it writes points to an existing neighbour, provided the source cell (zsi, xsi) is a cell of the
+   grid; nz, nx are the node counts *)
+Ltac sg_solve :=
+  cbv beta;
+  lazymatch goal with
+  | |- sgn_inv ?n ?m (snd (_, ?b)) => change (sgn_inv n m b); sg_solve
+  | |- sgn_inv _ _ (snd (if ?c then _ else _)) => destruct c; sg_solve
+  | |- sgn_inv ?n ?m (snd (for_list ?l ?b ?s)) =>
+      apply (for_list_inv (fun st => sgn_inv n m (snd st)) l b s); [ sg_solve | intros ? ? ? ?; sg_solve ]
+  | |- sgn_inv _ _ (if ?c then _ else _) => destruct c; sg_solve
+  | |- sgn_inv _ _ (set (set _ [?p; ?q; 0] _) [?p; ?q; 1] _) =>
+      apply sgn_inv_set2;
+      [ sg_solve | range_hyps; lia | range_hyps; lia
+      | unfold sgn_ok; range_hyps; lia | unfold sgn_ok; range_hyps; lia ]
+  | |- _ => assumption
+  end.
+
+Theorem init_preserves_sgn_inv (dx dz : T) grad iflag nx nz (slow tt ttgrad : arr T) ttsgn (vzero xsa zsa : T) xsi zsi :
+  0 <= zsi <= nz - 2 -> 0 <= xsi <= nx - 2 -> sgn_inv nz nx ttsgn ->
+  sgn_inv nz nx (snd (fteik2d_p2 dx dz grad iflag nx nz slow tt ttgrad ttsgn vzero xsa xsi zsa zsi)).
+Proof.
+  intros Hz Hx Hinv. unfold fteik2d_p2. sg_solve.
+Qed.
+
+(* loop invariant on the pair state of sweep2d *)
+Definition sgi (nz nx : Z) (s : arr T * arr Z) : Prop := sgn_inv nz nx (snd s).
+Lemma sgi_eta nz nx s : sgi nz nx s -> sgi nz nx (fst s, snd s).
+Proof. intros Hs. exact Hs. Qed.
+Lemma sgi_sweep nz nx grad tt ttsgn (slow : arr T) dargs (zsi xsi zsa xsa vzero : T) i j sgnvz sgnvx sgntz sgntx :
+  dirp sgnvz sgntz i nz -> dirp sgnvx sgntx j nx -> sgi nz nx (tt, ttsgn) ->
+  sgi nz nx (fst (sweep tt ttsgn slow dargs zsi xsi zsa xsa vzero i j sgnvz sgnvx sgntz sgntx nz nx grad),
+             snd (sweep tt ttsgn slow dargs zsi xsi zsa xsa vzero i j sgnvz sgnvx sgntz sgntx nz nx grad)).
+Proof. intros Di Dj Hs. unfold sgi in *. cbn [snd] in *. apply sweep_preserves_sgn_inv; auto. Qed.
+
+Ltac sgi_solve :=
+  cbv beta;
+  lazymatch goal with
+  | |- sgi _ _ (for_list _ _ _) => apply for_list_inv; [ sgi_solve | intros ? ? ? ?; sgi_solve ]
+  | |- sgi _ _ (fst ?x, snd ?x) =>
+      first [ assumption
+            | apply sgi_sweep; [ range_hyps; unfold dirp; lia | range_hyps; unfold dirp; lia | sgi_solve ]
+            | apply sgi_eta; sgi_solve ]
+  | |- _ => assumption
+  end.
+
+Theorem sweep2d_preserves_sgn_inv (tt : arr T) ttsgn (slow : arr T) (dz dx zsi xsi zsa xsa vzero : T) nz nx grad :
+  sgn_inv nz nx ttsgn ->
+  sgn_inv nz nx (snd (sweep2d tt ttsgn slow dz dx zsi xsi zsa xsa vzero nz nx grad)).
+Proof.
+  intros Hinv. assert (H0 : sgi nz nx (tt, ttsgn)) by exact Hinv.
+  change (sgi nz nx (sweep2d tt ttsgn slow dz dx zsi xsi zsa xsa vzero nz nx grad)).
+  unfold sweep2d. sgi_solve.
+Qed.
+
+(* the shapes are preserved as well *)
+Theorem sweep2d_shapes (tt : arr T) ttsgn (slow : arr T) (dz dx zsi xsi zsa xsa vzero : T) nz nx grad :
+  shape (fst (sweep2d tt ttsgn slow dz dx zsi xsi zsa xsa vzero nz nx grad)) = shape tt /\
+  shape (snd (sweep2d tt ttsgn slow dz dx zsi xsi zsa xsa vzero nz nx grad)) = shape ttsgn.
+Proof.
+  set (P := fun s : arr T * arr Z => shape (fst s) = shape tt /\ shape (snd s) = shape ttsgn).
+  change (P (sweep2d tt ttsgn slow dz dx zsi xsi zsa xsa vzero nz nx grad)).
+  assert (H0 : P (tt, ttsgn)) by (split; reflexivity).
+  assert (Hsw : forall a b dargs i j c1 c2 c3 c4, P (a, b) ->
+            P (fst (sweep a b slow dargs zsi xsi zsa xsa vzero i j c1 c2 c3 c4 nz nx grad),
+               snd (sweep a b slow dargs zsi xsi zsa xsa vzero i j c1 c2 c3 c4 nz nx grad))).
+  { intros a b dargs i j c1 c2 c3 c4 [E1 E2]. split; cbn [fst snd] in *;
+      [ rewrite sweep_fst_shape | rewrite sweep_snd_shape ]; assumption. }
+  assert (Heta : forall s, P s -> P (fst s, snd s)) by (intros s Hs; exact Hs).
+  unfold sweep2d.
+  repeat lazymatch goal with
+  | |- P (for_list _ _ _) => apply for_list_inv; [ | intros ? ? ? ?; cbv beta ]
+  | |- P (fst ?x, snd ?x) => first [ assumption | apply Hsw | apply Heta ]
+  | |- _ => assumption
+  end.
+Qed.
+
+(* ---------- the gradient assembly loop of fteik2d ---------- *)
+(* `assembly_ok` / `assembly` are copies of the obligation text / value text of the loop nest
+   `if grad: for i in range(nz): for j in range(nx): ...` as they appear inside the generated `fteik2d_ok` /
+   `fteik2d`; `fteik2d_ok_assembly` below checks by `reflexivity` that the copy is the generated text. *)
+Local Open Scope bool_scope.
+Definition assembly_ok (wI wD : bool) (tt_v : arr T) (ttsgn : arr Z) (ttgrad : arr T) (dz dx : T) (nz nx : Z) : bool :=
+for_list_ok (pyrange 0 nz 1) (fun (i : Z) (u_s_v : (arr T)) =>
+let ttgrad := u_s_v in
+for_list_ok (pyrange 0 nx 1) (fun (j : Z) (u_s_v : (arr T)) =>
+let ttgrad := u_s_v in
+obI wI (inb ttsgn [i; j; 0]) &&
+let sgntz := (get 0 ttsgn [i; j; 0]) in
+let u_k26_v : (arr T) -> bool := (fun (u_j_v : (arr T)) =>
+let ttgrad := u_j_v in
+obI wI (inb ttsgn [i; j; 1]) &&
+let sgntx := (get 0 ttsgn [i; j; 1]) in
+let u_k27_v : (arr T) -> bool := (fun (u_j_v : (arr T)) =>
+let ttgrad := u_j_v in
+((obI wI (inb ttgrad [i; j; 0]) && obI wI (inb ttgrad [i; j; 1])) && (Common.norm2d_ok wI wD (get (nofZ 0) ttgrad [i; j; 0]) (get (nofZ 0) ttgrad [i; j; 1]))) &&
+let gn := (Common.norm2d (get (nofZ 0) ttgrad [i; j; 0]) (get (nofZ 0) ttgrad [i; j; 1])) in
+let u_k28_v : (arr T) -> bool := (fun (u_j_v : (arr T)) =>
+let ttgrad := u_j_v in
+true) in
+(if (ngtb gn (nofZ 0)) return bool
+ then ((obI wI (inb_sub ttgrad [i; j]) && obD wD (nneb gn (nofZ 0))) &&
+let ttgrad := (set_sub ttgrad [i; j] (amap (fun u_e_v => ndiv u_e_v gn) (get_sub ttgrad [i; j]))) in
+u_k28_v ttgrad)
+ else (u_k28_v ttgrad))) in
+(if (negb (sgntx =? 0)) return bool
+ then (obI wI (inb tt_v [i; (j - sgntx)]) &&
+let t1 := (get (nofZ 0) tt_v [i; (j - sgntx)]) in
+((obI wI (inb tt_v [i; j]) && obD wD (nneb dx (nofZ 0))) && obI wI (inb ttgrad [i; j; 1])) &&
+let ttgrad := (set ttgrad [i; j; 1] (ndiv (nmul (nofZ sgntx) (nsub (get (nofZ 0) tt_v [i; j]) t1)) dx)) in
+u_k27_v ttgrad)
+ else (u_k27_v ttgrad))) in
+(if (negb (sgntz =? 0)) return bool
+ then (obI wI (inb tt_v [(i - sgntz); j]) &&
+let t1 := (get (nofZ 0) tt_v [(i - sgntz); j]) in
+((obI wI (inb tt_v [i; j]) && obD wD (nneb dz (nofZ 0))) && obI wI (inb ttgrad [i; j; 0])) &&
+let ttgrad := (set ttgrad [i; j; 0] (ndiv (nmul (nofZ sgntz) (nsub (get (nofZ 0) tt_v [i; j]) t1)) dz)) in
+u_k26_v ttgrad)
+ else (u_k26_v ttgrad))) (fun (j : Z) (u_s_v : (arr T)) =>
+let ttgrad := u_s_v in
+let sgntz := (get 0 ttsgn [i; j; 0]) in
+let u_j_v : (arr T) := (if (negb (sgntz =? 0))
+ then (let t1 := (get (nofZ 0) tt_v [(i - sgntz); j]) in
+let ttgrad := (set ttgrad [i; j; 0] (ndiv (nmul (nofZ sgntz) (nsub (get (nofZ 0) tt_v [i; j]) t1)) dz)) in
+ttgrad)
+ else (ttgrad)) in
+let ttgrad := u_j_v in
+let sgntx := (get 0 ttsgn [i; j; 1]) in
+let u_j_v : (arr T) := (if (negb (sgntx =? 0))
+ then (let t1 := (get (nofZ 0) tt_v [i; (j - sgntx)]) in
+let ttgrad := (set ttgrad [i; j; 1] (ndiv (nmul (nofZ sgntx) (nsub (get (nofZ 0) tt_v [i; j]) t1)) dx)) in
+ttgrad)
+ else (ttgrad)) in
+let ttgrad := u_j_v in
+let gn := (Common.norm2d (get (nofZ 0) ttgrad [i; j; 0]) (get (nofZ 0) ttgrad [i; j; 1])) in
+let u_j_v : (arr T) := (if (ngtb gn (nofZ 0))
+ then (let ttgrad := (set_sub ttgrad [i; j] (amap (fun u_e_v => ndiv u_e_v gn) (get_sub ttgrad [i; j]))) in
+ttgrad)
+ else (ttgrad)) in
+let ttgrad := u_j_v in
+ttgrad) ttgrad &&
+let u_s_v := for_list (pyrange 0 nx 1) (fun (j : Z) (u_s_v : (arr T)) =>
+let ttgrad := u_s_v in
+let sgntz := (get 0 ttsgn [i; j; 0]) in
+let u_j_v : (arr T) := (if (negb (sgntz =? 0))
+ then (let t1 := (get (nofZ 0) tt_v [(i - sgntz); j]) in
+let ttgrad := (set ttgrad [i; j; 0] (ndiv (nmul (nofZ sgntz) (nsub (get (nofZ 0) tt_v [i; j]) t1)) dz)) in
+ttgrad)
+ else (ttgrad)) in
+let ttgrad := u_j_v in
+let sgntx := (get 0 ttsgn [i; j; 1]) in
+let u_j_v : (arr T) := (if (negb (sgntx =? 0))
+ then (let t1 := (get (nofZ 0) tt_v [i; (j - sgntx)]) in
+let ttgrad := (set ttgrad [i; j; 1] (ndiv (nmul (nofZ sgntx) (nsub (get (nofZ 0) tt_v [i; j]) t1)) dx)) in
+ttgrad)
+ else (ttgrad)) in
+let ttgrad := u_j_v in
+let gn := (Common.norm2d (get (nofZ 0) ttgrad [i; j; 0]) (get (nofZ 0) ttgrad [i; j; 1])) in
+let u_j_v : (arr T) := (if (ngtb gn (nofZ 0))
+ then (let ttgrad := (set_sub ttgrad [i; j] (amap (fun u_e_v => ndiv u_e_v gn) (get_sub ttgrad [i; j]))) in
+ttgrad)
+ else (ttgrad)) in
+let ttgrad := u_j_v in
+ttgrad) ttgrad in
+let ttgrad := u_s_v in
+true) (fun (i : Z) (u_s_v : (arr T)) =>
+let ttgrad := u_s_v in
+let u_s_v := for_list (pyrange 0 nx 1) (fun (j : Z) (u_s_v : (arr T)) =>
+let ttgrad := u_s_v in
+let sgntz := (get 0 ttsgn [i; j; 0]) in
+let u_j_v : (arr T) := (if (negb (sgntz =? 0))
+ then (let t1 := (get (nofZ 0) tt_v [(i - sgntz); j]) in
+let ttgrad := (set ttgrad [i; j; 0] (ndiv (nmul (nofZ sgntz) (nsub (get (nofZ 0) tt_v [i; j]) t1)) dz)) in
+ttgrad)
+ else (ttgrad)) in
+let ttgrad := u_j_v in
+let sgntx := (get 0 ttsgn [i; j; 1]) in
+let u_j_v : (arr T) := (if (negb (sgntx =? 0))
+ then (let t1 := (get (nofZ 0) tt_v [i; (j - sgntx)]) in
+let ttgrad := (set ttgrad [i; j; 1] (ndiv (nmul (nofZ sgntx) (nsub (get (nofZ 0) tt_v [i; j]) t1)) dx)) in
+ttgrad)
+ else (ttgrad)) in
+let ttgrad := u_j_v in
+let gn := (Common.norm2d (get (nofZ 0) ttgrad [i; j; 0]) (get (nofZ 0) ttgrad [i; j; 1])) in
+let u_j_v : (arr T) := (if (ngtb gn (nofZ 0))
+ then (let ttgrad := (set_sub ttgrad [i; j] (amap (fun u_e_v => ndiv u_e_v gn) (get_sub ttgrad [i; j]))) in
+ttgrad)
+ else (ttgrad)) in
+let ttgrad := u_j_v in
+ttgrad) ttgrad in
+let ttgrad := u_s_v in
+ttgrad) ttgrad.
+Definition assembly (tt_v : arr T) (ttsgn : arr Z) (ttgrad : arr T) (dz dx : T) (nz nx : Z) : arr T :=
+for_list (pyrange 0 nz 1) (fun (i : Z) (u_s_v : (arr T)) =>
+let ttgrad := u_s_v in
+let u_s_v := for_list (pyrange 0 nx 1) (fun (j : Z) (u_s_v : (arr T)) =>
+let ttgrad := u_s_v in
+let sgntz := (get 0 ttsgn [i; j; 0]) in
+let u_j_v : (arr T) := (if (negb (sgntz =? 0))
+ then (let t1 := (get (nofZ 0) tt_v [(i - sgntz); j]) in
+let ttgrad := (set ttgrad [i; j; 0] (ndiv (nmul (nofZ sgntz) (nsub (get (nofZ 0) tt_v [i; j]) t1)) dz)) in
+ttgrad)
+ else (ttgrad)) in
+let ttgrad := u_j_v in
+let sgntx := (get 0 ttsgn [i; j; 1]) in
+let u_j_v : (arr T) := (if (negb (sgntx =? 0))
+ then (let t1 := (get (nofZ 0) tt_v [i; (j - sgntx)]) in
+let ttgrad := (set ttgrad [i; j; 1] (ndiv (nmul (nofZ sgntx) (nsub (get (nofZ 0) tt_v [i; j]) t1)) dx)) in
+ttgrad)
+ else (ttgrad)) in
+let ttgrad := u_j_v in
+let gn := (Common.norm2d (get (nofZ 0) ttgrad [i; j; 0]) (get (nofZ 0) ttgrad [i; j; 1])) in
+let u_j_v : (arr T) := (if (ngtb gn (nofZ 0))
+ then (let ttgrad := (set_sub ttgrad [i; j] (amap (fun u_e_v => ndiv u_e_v gn) (get_sub ttgrad [i; j]))) in
+ttgrad)
+ else (ttgrad)) in
+let ttgrad := u_j_v in
+ttgrad) ttgrad in
+let ttgrad := u_s_v in
+ttgrad) ttgrad.
+
+Lemma fteik2d_ok_assembly (wI wD : bool) (slow : arr T) (dz dx zsrc xsrc : T) (nsweep : Z) (grad : bool) :
+  fteik2d_ok wI wD slow dz dx zsrc xsrc nsweep grad =
+let u_r_v := ((dim slow 0%nat), (dim slow 1%nat)) in
+let nz := (fst u_r_v) in
+let nx := (snd u_r_v) in
+let condz := ((nleb (nofZ 0) zsrc) && (nleb zsrc (nmul dz (nofZ nz)))) in
+let condx := ((nleb (nofZ 0) xsrc) && (nleb xsrc (nmul dx (nofZ nx)))) in
+(if (negb (condz && condx)) return bool
+ then (true)
+ else ((fteik2d_p1_ok wI wD dx dz grad nx nz slow xsrc zsrc) &&
+let u_p_v := (fteik2d_p1 dx dz grad nx nz slow xsrc zsrc) in
+let iflag := (fst (fst (fst (fst (fst (fst (fst (fst (fst (fst u_p_v)))))))))) in
+let nx := (snd (fst (fst (fst (fst (fst (fst (fst (fst (fst u_p_v)))))))))) in
+let nz := (snd (fst (fst (fst (fst (fst (fst (fst (fst u_p_v))))))))) in
+let tt_v := (snd (fst (fst (fst (fst (fst (fst (fst u_p_v)))))))) in
+let ttgrad := (snd (fst (fst (fst (fst (fst (fst u_p_v))))))) in
+let ttsgn := (snd (fst (fst (fst (fst (fst u_p_v)))))) in
+let vzero := (snd (fst (fst (fst (fst u_p_v))))) in
+let xsa := (snd (fst (fst (fst u_p_v)))) in
+let xsi := (snd (fst (fst u_p_v))) in
+let zsa := (snd (fst u_p_v)) in
+let zsi := (snd u_p_v) in
+(fteik2d_p2_ok wI wD dx dz grad iflag nx nz slow tt_v ttgrad ttsgn vzero xsa xsi zsa zsi) &&
+let u_p_v := (fteik2d_p2 dx dz grad iflag nx nz slow tt_v ttgrad ttsgn vzero xsa xsi zsa zsi) in
+let tt_v := (fst (fst u_p_v)) in
+let ttgrad := (snd (fst u_p_v)) in
+let ttsgn := (snd u_p_v) in
+for_list_ok (pyrange 0 nsweep 1) (fun (u__v : Z) (u_s_v : ((arr T) * (arr Z))) =>
+let tt_v := (fst u_s_v) in
+let ttsgn := (snd u_s_v) in
+(sweep2d_ok wI wD tt_v ttsgn slow dz dx (nofZ zsi) (nofZ xsi) zsa xsa vzero nz nx grad) &&
+let u_r_v := (sweep2d tt_v ttsgn slow dz dx (nofZ zsi) (nofZ xsi) zsa xsa vzero nz nx grad) in
+let tt_v := (fst u_r_v) in
+let ttsgn := (snd u_r_v) in
+true) (fun (u__v : Z) (u_s_v : ((arr T) * (arr Z))) =>
+let tt_v := (fst u_s_v) in
+let ttsgn := (snd u_s_v) in
+let u_r_v := (sweep2d tt_v ttsgn slow dz dx (nofZ zsi) (nofZ xsi) zsa xsa vzero nz nx grad) in
+let tt_v := (fst u_r_v) in
+let ttsgn := (snd u_r_v) in
+(tt_v, ttsgn)) (tt_v, ttsgn) &&
+let u_s_v := for_list (pyrange 0 nsweep 1) (fun (u__v : Z) (u_s_v : ((arr T) * (arr Z))) =>
+let tt_v := (fst u_s_v) in
+let ttsgn := (snd u_s_v) in
+let u_r_v := (sweep2d tt_v ttsgn slow dz dx (nofZ zsi) (nofZ xsi) zsa xsa vzero nz nx grad) in
+let tt_v := (fst u_r_v) in
+let ttsgn := (snd u_r_v) in
+(tt_v, ttsgn)) (tt_v, ttsgn) in
+let tt_v := (fst u_s_v) in
+let ttsgn := (snd u_s_v) in
+(if grad then assembly_ok wI wD tt_v ttsgn ttgrad dz dx nz nx && true else true))).
+Proof. reflexivity. Qed.
+
+Ltac shp1_solve :=
+  cbv beta;
+  lazymatch goal with
+  | |- shape (for_list ?l ?b ?s) = ?sh =>
+      apply (for_list_inv (fun g => shape g = sh) l b s); [ shp1_solve | intros ? ? ? ?; shp1_solve ]
+  | |- shape (if ?c then _ else _) = _ => destruct c; shp1_solve
+  | |- shape (set _ _ _) = _ => rewrite shape_set; shp1_solve
+  | |- shape (set_sub _ _ _) = _ => rewrite shape_set_sub; shp1_solve
+  | |- _ => assumption
+  end.
+
+Theorem assembly_ok_true (tt : arr T) (ttsgn : arr Z) (ttgrad : arr T) (dz dx : T) nz nx :
+  shape tt = [nz; nx] -> sgn_inv nz nx ttsgn -> shape ttgrad = [nz; nx; 2] ->
+  assembly_ok true false tt ttsgn ttgrad dz dx nz nx = true.
+Proof.
+  intros Htt (W & Ssg & Hq) Hg.
+  cbv beta delta [assembly_ok].
+  ok_walk_gen (fun g : arr T => shape g = [nz; nx; 2]) shp1_solve
+    ltac:(first [ reflexivity
+                | range_hyps;
+                  match goal with Hi : 0 <= ?i < nz, Hj : 0 <= ?j < nx |- _ =>
+                    destruct (Hq i j Hi Hj) as [Fz Fx]; unfold sgn_ok in Fz, Fx end;
+                  inb_solve ]).
+Qed.
+
+(* the assembly loop keeps the shape of the gradient array *)
+Lemma assembly_shape (tt : arr T) (ttsgn : arr Z) (ttgrad : arr T) (dz dx : T) nz nx :
+  shape (assembly tt ttsgn ttgrad dz dx nz nx) = shape ttgrad.
+Proof. unfold assembly. remember (shape ttgrad) as sh eqn:E. symmetry in E. shp1_solve. Qed.
+
+(* ---------- sweeps and assembly together: the part of fteik2d after the source initialisation ---------- *)
+(* `tail_ok` is a copy of the obligation text of `for _ in range(nsweep): sweep2d(...)` followed by the assembly, as
+   it appears in `fteik2d_ok` (checked by `fteik2d_ok_tail`); zsi, xsi are the source cell indices as floats *)
+Definition tail_ok (wI wD : bool) (slow : arr T) (dz dx zsi xsi zsa xsa vzero : T) (nz nx nsweep : Z) (grad : bool)
+           (tt_v : arr T) (ttsgn : arr Z) (ttgrad : arr T) : bool :=
+for_list_ok (pyrange 0 nsweep 1) (fun (u__v : Z) (u_s_v : ((arr T) * (arr Z))) =>
+let tt_v := (fst u_s_v) in
+let ttsgn := (snd u_s_v) in
+(sweep2d_ok wI wD tt_v ttsgn slow dz dx zsi xsi zsa xsa vzero nz nx grad) &&
+let u_r_v := (sweep2d tt_v ttsgn slow dz dx zsi xsi zsa xsa vzero nz nx grad) in
+let tt_v := (fst u_r_v) in
+let ttsgn := (snd u_r_v) in
+true) (fun (u__v : Z) (u_s_v : ((arr T) * (arr Z))) =>
+let tt_v := (fst u_s_v) in
+let ttsgn := (snd u_s_v) in
+let u_r_v := (sweep2d tt_v ttsgn slow dz dx zsi xsi zsa xsa vzero nz nx grad) in
+let tt_v := (fst u_r_v) in
+let ttsgn := (snd u_r_v) in
+(tt_v, ttsgn)) (tt_v, ttsgn) &&
+let u_s_v := for_list (pyrange 0 nsweep 1) (fun (u__v : Z) (u_s_v : ((arr T) * (arr Z))) =>
+let tt_v := (fst u_s_v) in
+let ttsgn := (snd u_s_v) in
+let u_r_v := (sweep2d tt_v ttsgn slow dz dx zsi xsi zsa xsa vzero nz nx grad) in
+let tt_v := (fst u_r_v) in
+let ttsgn := (snd u_r_v) in
+(tt_v, ttsgn)) (tt_v, ttsgn) in
+let tt_v := (fst u_s_v) in
+let ttsgn := (snd u_s_v) in
+(if grad then assembly_ok wI wD tt_v ttsgn ttgrad dz dx nz nx && true else true).
+
+Lemma fteik2d_ok_tail (wI wD : bool) (slow : arr T) (dz dx zsrc xsrc : T) (nsweep : Z) (grad : bool) :
+  fteik2d_ok wI wD slow dz dx zsrc xsrc nsweep grad =
+let u_r_v := ((dim slow 0%nat), (dim slow 1%nat)) in
+let nz := (fst u_r_v) in
+let nx := (snd u_r_v) in
+let condz := ((nleb (nofZ 0) zsrc) && (nleb zsrc (nmul dz (nofZ nz)))) in
+let condx := ((nleb (nofZ 0) xsrc) && (nleb xsrc (nmul dx (nofZ nx)))) in
+(if (negb (condz && condx)) return bool
+ then (true)
+ else ((fteik2d_p1_ok wI wD dx dz grad nx nz slow xsrc zsrc) &&
+let u_p_v := (fteik2d_p1 dx dz grad nx nz slow xsrc zsrc) in
+let iflag := (fst (fst (fst (fst (fst (fst (fst (fst (fst (fst u_p_v)))))))))) in
+let nx := (snd (fst (fst (fst (fst (fst (fst (fst (fst (fst u_p_v)))))))))) in
+let nz := (snd (fst (fst (fst (fst (fst (fst (fst (fst u_p_v))))))))) in
+let tt_v := (snd (fst (fst (fst (fst (fst (fst (fst u_p_v)))))))) in
+let ttgrad := (snd (fst (fst (fst (fst (fst (fst u_p_v))))))) in
+let ttsgn := (snd (fst (fst (fst (fst (fst u_p_v)))))) in
+let vzero := (snd (fst (fst (fst (fst u_p_v))))) in
+let xsa := (snd (fst (fst (fst u_p_v)))) in
+let xsi := (snd (fst (fst u_p_v))) in
+let zsa := (snd (fst u_p_v)) in
+let zsi := (snd u_p_v) in
+(fteik2d_p2_ok wI wD dx dz grad iflag nx nz slow tt_v ttgrad ttsgn vzero xsa xsi zsa zsi) &&
+let u_p_v := (fteik2d_p2 dx dz grad iflag nx nz slow tt_v ttgrad ttsgn vzero xsa xsi zsa zsi) in
+let tt_v := (fst (fst u_p_v)) in
+let ttgrad := (snd (fst u_p_v)) in
+let ttsgn := (snd u_p_v) in
+tail_ok wI wD slow dz dx (nofZ zsi) (nofZ xsi) zsa xsa vzero nz nx nsweep grad tt_v ttsgn ttgrad)).
+Proof. reflexivity. Qed.
+
+Section Tail.
+Variables (nz nx : Z) (grad : bool).
+Definition tinv (s : arr T * arr Z) : Prop :=
+  shape (fst s) = [nz; nx] /\ (grad = true -> sgn_inv nz nx (snd s)).
+Lemma tinv_eta s : tinv s -> tinv (fst s, snd s).
+Proof. intros Hs. exact Hs. Qed.
+Lemma tinv_sweep2d tt ttsgn (slow : arr T) (dz dx zsi xsi zsa xsa vzero : T) :
+  tinv (tt, ttsgn) ->
+  tinv (fst (sweep2d tt ttsgn slow dz dx zsi xsi zsa xsa vzero nz nx grad),
+        snd (sweep2d tt ttsgn slow dz dx zsi xsi zsa xsa vzero nz nx grad)).
+Proof.
+  intros [H1 H2]. cbn [fst snd] in *. split; cbn [fst snd].
+  - rewrite (proj1 (sweep2d_shapes tt ttsgn slow dz dx zsi xsi zsa xsa vzero nz nx grad)). exact H1.
+  - intros G. apply sweep2d_preserves_sgn_inv. auto.
+Qed.
+End Tail.
+
+Ltac tinv_solve :=
+  cbv beta;
+  lazymatch goal with
+  | |- tinv _ _ _ (for_list _ _ _) => apply for_list_inv; [ tinv_solve | intros ? ? ? ?; tinv_solve ]
+  | |- tinv _ _ _ (fst ?x, snd ?x) =>
+      first [ assumption | apply tinv_sweep2d; tinv_solve | apply tinv_eta; tinv_solve ]
+  | |- _ => assumption
+  end.
+
+Theorem tail_ok_true (slow : arr T) (dz dx zsi xsi zsa xsa vzero : T) nz nx nsweep grad
+        (tt : arr T) (ttsgn : arr Z) (ttgrad : arr T) :
+  2 <= nz -> 2 <= nx -> shape tt = [nz; nx] -> shape slow = [nz - 1; nx - 1] ->
+  (grad = true -> sgn_inv nz nx ttsgn /\ shape ttgrad = [nz; nx; 2]) ->
+  tail_ok true false slow dz dx zsi xsi zsa xsa vzero nz nx nsweep grad tt ttsgn ttgrad = true.
+Proof.
+  intros Hnz Hnx Htt Hslow Hg.
+  assert (H0 : tinv nz nx grad (tt, ttsgn)) by (split; [ exact Htt | intros G; apply Hg; exact G ]).
+  cbv beta delta [tail_ok].
+  ok_walk_gen (tinv nz nx grad) tinv_solve
+    ltac:(idtac;
+          match goal with
+          | Hs : tinv _ _ _ ?s |- sweep2d_ok _ _ (fst ?s) _ _ _ _ _ _ _ _ _ _ _ _ = true =>
+              destruct Hs as [Hs1 Hs2]; apply sweep2d_ok_true; auto;
+              intros G; destruct (Hs2 G) as (_ & Sg & _); exact Sg
+          | Hs : tinv _ _ _ ?s |- assembly_ok _ _ (fst ?s) _ _ _ _ _ _ = true =>
+              destruct Hs as [Hs1 Hs2]; destruct (Hg eq_refl) as [_ Sgr];
+              apply assembly_ok_true; auto
+          end).
+Qed.
 End S2.
 
 Print Assumptions sweep_ok_true.
 Print Assumptions sweep2d_ok_true.
+Print Assumptions sgn_inv_zeros.
+Print Assumptions init_preserves_sgn_inv.
+Print Assumptions sweep_preserves_sgn_inv.
+Print Assumptions sweep2d_preserves_sgn_inv.
+Print Assumptions fteik2d_ok_assembly.
+Print Assumptions assembly_ok_true.
+Print Assumptions fteik2d_ok_tail.
+Print Assumptions tail_ok_true.
